@@ -262,6 +262,16 @@ func laneP_C10(t *testing.T, plan *Plan, w *World, sink *Sink) {
 			if prompted {
 				sink.Cell("prompt-shown")
 			}
+			// the consent clause read off the real directory alone (no use of lane S's plan): a file that
+			// held a decodable certificate before the run and has other content now was replaced
+			for _, cp := range changed {
+				if b, ok := before[cp]; ok && strings.HasSuffix(cp, ".pem") {
+					if a := ReadArtifact([]byte(b.Data), true); a.Cert != nil && (!prompted || !answerIsYes(ans)) {
+						fail("laneP:certificate-file-replaced-without-consent", "flags=%d answer %q prompted=%v: %s held a certificate and was rewritten; stdout=%q", first.Op.Flags, ans, prompted, cp, res.Stdout)
+						return
+					}
+				}
+			}
 			if prompted != replace {
 				fail("laneP:prompt-mismatch", "flags=%d: lane S planned replace=%v but binary prompted=%v; stdout=%q", first.Op.Flags, replace, prompted, res.Stdout)
 				return
